@@ -53,6 +53,55 @@ fn check_views<G: CurveTag>(
                     what(format!("{}({},{})", name, n, m)),
                 ));
             }
+            // the same listing through the other ways an iterator is consumed: positional access,
+            // skipping, striding, counting, folding from the back of the call chain
+            let len = exp.len();
+            let mk = || -> Box<dyn Iterator<Item = &G> + '_> { if kind == b'G' { Box::new(gens.G(*n, *m)) } else { Box::new(gens.H(*n, *m)) } };
+            let probes: Vec<usize> = vec![0, 1, (*n).saturating_sub(1), *n, *n + 1, 2 * *n, 2 * *n + 1, 3 * *n, len.saturating_sub(1), len, len / 2, (len * 2) / 3 + 1];
+            for k in probes {
+                let r: Result<Option<String>, String> = guarded(|| {
+                    let mut it = mk();
+                    let (lo, hi) = it.size_hint();
+                    if lo > len || hi.map(|h| h < len).unwrap_or(false) {
+                        return Some(format!("size_hint() = ({}, {:?}) for {} items", lo, hi, len));
+                    }
+                    let got = it.nth(k).copied();
+                    if got != exp.get(k).copied() {
+                        return Some(format!("nth({}) is not item {} of the listing", k, k));
+                    }
+                    let nxt = it.next().copied();
+                    if k < len && nxt != exp.get(k + 1).copied() {
+                        return Some(format!("next() after nth({}) is not item {}", k, k + 1));
+                    }
+                    let sk: Vec<G> = mk().skip(k).copied().collect();
+                    if sk[..] != exp[k.min(len)..] {
+                        return Some(format!("skip({}) does not list items {}.. ", k, k));
+                    }
+                    let st: Vec<G> = mk().step_by(k + 1).copied().collect();
+                    let est: Vec<G> = exp.iter().step_by(k + 1).copied().collect();
+                    if st != est {
+                        return Some(format!("step_by({}) does not list every {}-th item", k + 1, k + 1));
+                    }
+                    // nth twice: positions k and 2k+1
+                    let mut it2 = mk();
+                    let _ = it2.nth(k);
+                    if it2.nth(k).copied() != exp.get(2 * k + 1).copied() {
+                        return Some(format!("nth({}) after nth({}) is not item {}", k, k, 2 * k + 1));
+                    }
+                    None
+                });
+                match r {
+                    Err(p) => return Err(Failure::new(format!("C12:view-panic:{}", name), format!("{}({}, {}) consumed with nth/skip/step_by({}) panicked: {}", name, n, m, k, p), what(format!("{}({},{})", name, n, m)))),
+                    Ok(Some(msg)) => return Err(Failure::new(format!("C12:view-adaptor:{}", name), format!("{}({}, {}): {}", name, n, m, msg), what(format!("{}({},{})", name, n, m)))),
+                    Ok(None) => {}
+                }
+            }
+            let cnt = guarded(|| (mk().count(), mk().last().copied()));
+            if let Ok((c, l)) = cnt {
+                if c != len || l != exp.last().copied() {
+                    return Err(Failure::new(format!("C12:view-adaptor:{}", name), format!("{}({}, {}): count() = {} / last() differs (expected {} items)", name, n, m, c, len), what(format!("{}({},{})", name, n, m))));
+                }
+            }
         }
     }
     Ok(())
